@@ -82,15 +82,16 @@ Example C01_return_expression_example : forall P,
 Proof. exact ex_conclusion. Qed.
 
 (** PARTIAL (4): straight-line functions.  The body is any sequence of declarations of int / float locals (with or without
-    initialiser) and assignments to int / float locals, parameters and globals, each right-hand side a pure expression as in
-    (3), followed by  return e.  If the front-end model elaborates and the lowering model lowers the function to F, then at
+    initialiser) and assignments -- plain or compound (+= -= *= /=, which front end and reference semantics both read as
+    x = x op e) -- to int / float locals, parameters and globals, each right-hand side a pure expression as in (3),
+    followed by  return e.  If the front-end model elaborates and the lowering model lowers the function to F, then at
     every call with numeric arguments and globals of the declared types, whenever the reference semantics runs the body
     to completion it returns a number v, and the VM model running F returns exactly v and ends in a VM state that agrees
     with the reference state on every visible name (in particular on every global), for every sufficient fuel.
     Hypotheses as in (3), plus: declared names differ from parameter and global names (the front end rejects the others,
     C12).  [straight_in_fragment] decides the static hypotheses (sound by C01_straight_fragment_test_sound) and is
     evaluated by the check on every generated straight-line function.
-    Missing for the full statement: control flow, calls, aggregates, compound assignment, ++ / --. *)
+    Missing for the full statement: control flow, calls, aggregates, ++ / --. *)
 Theorem C01_straight_line_functions_partial :
   forall (M : module) (fn : func) (l : list stmt) (e : expr) (tf : tfunc) (F : ifunc),
     f_body fn = l ++ [SRet (Some e)] -> forallb ssimple l = true -> spure e = true ->
